@@ -37,7 +37,7 @@ def dump(repo=None):
                 return pickle.load(f)
         except Exception:
             pass
-    unity = os.path.join(CACHE, "unity-%s.cpp" % key)
+    unity = os.path.join(CACHE, "unity-%s-%d.cpp" % (key, os.getpid()))
     with open(unity, "w") as f:
         for n in UNITY_ORDER:
             p = os.path.join(repo, "src", n)
@@ -47,7 +47,10 @@ def dump(repo=None):
     cmd = ["clang++", "-std=c++14", "-msse4", "-fsyntax-only", "-I", os.path.join(repo, "src"),
            "-Xclang", "-ast-dump=json", "-Xclang", "-ast-dump-filter=CDNS::", unity]
     r = subprocess.run(cmd, stdout=subprocess.PIPE, stderr=subprocess.PIPE)
-    os.unlink(unity)
+    try:
+        os.unlink(unity)
+    except OSError:
+        pass
     if r.returncode != 0:
         raise AstError("clang failed on the working tree:\n" + r.stderr.decode()[-3000:])
     s = r.stdout.decode()
@@ -68,11 +71,14 @@ def dump(repo=None):
     # keep cache small: drop old pickles
     for old in glob.glob(os.path.join(CACHE, "ast-*.pickle")):
         try:
-            os.unlink(old)
+            if old != pk:
+                os.unlink(old)
         except OSError:
             pass
-    with open(pk, "wb") as f:
+    tmp = pk + ".%d.tmp" % os.getpid()
+    with open(tmp, "wb") as f:
         pickle.dump(objs, f, protocol=pickle.HIGHEST_PROTOCOL)
+    os.replace(tmp, pk)
     return objs
 
 
